@@ -1,4 +1,5 @@
 """C15 — child processes get exactly the configured argv, env, cwd and stdin."""
+import re
 import json
 
 from ..guards import ne, sh
@@ -243,10 +244,26 @@ def r3_caps(ctx):
         if len(cmps) != 1:
             ctx.bad("helper-compare|%s|%d" % (hid.split("::")[-1], len(cmps)), h.where(), "%s compares against its limit %d times" % (hid, len(cmps)))
         for b, op, right, other in cmps:
-            if (op == "Gt" and right) or (op == "Lt" and not right):
+            # normalise to  len <op> max  and find which outcome builds the Err
+            nop = op if right else {"Gt": "Lt", "Ge": "Le", "Lt": "Gt", "Le": "Ge"}[op]
+            S = None
+            for cand in sorted(h.live):
+                if h.blocks[cand]["t"]["k"] == "switch" and (cand == b or h.dominates(b, cand)):
+                    si = h.switch_info(cand)
+                    if si["kind"] == "bin" and si["block"] == b if "block" in si else si["kind"] == "bin":
+                        S = cand
+                        break
+            err_on = None
+            if S is not None:
+                for lab, tgt in h.succ[S]:
+                    region = [x for x in h.reach([tgt], removed_nodes=[S]) if h.edge_dominated(x, S, [lab])] + [tgt]
+                    if any(st["rv"]["k"] == "agg" and st["rv"].get("variant") == "Err" for x in region for st in h.blocks[x]["s"]):
+                        err_on = (lab != 0)
+            # refusal exactly when len > max:  (Gt, Err on true)  or  (Le, Err on false)
+            if (nop == "Gt" and err_on is True) or (nop == "Le" and err_on is False):
                 ctx.ok("helper-compare|%s" % hid.split("::")[-1], h.where(b), "%s > %s -> Err" % (other, maxname))
             else:
-                ctx.bad("helper-operator|%s|%s" % (hid.split("::")[-1], op), h.where(b), "%s uses %s against its limit (must be len > max)" % (hid, op))
+                ctx.bad("helper-operator|%s|%s" % (hid.split("::")[-1], nop + ("" if err_on is None else ("/err-on-true" if err_on else "/err-on-false"))), h.where(b), "%s refuses when `len %s max` is %s (must refuse exactly when len > max)" % (hid, {"Gt": ">", "Ge": ">=", "Lt": "<", "Le": "<="}[nop], err_on))
     h = ctx.need("process::validate_named_text")
     tests = {}
     for c in h.calls():
@@ -383,7 +400,71 @@ def r6_configured_text_outlives_configuration(ctx):
     host_value_storage(ctx)
 
 
-RULES = [("C15-R1", r1_gate), ("C15-R2", r2_no_shell), ("C15-R3", r3_caps), ("C15-R3b", r3b_refusal_before_spawn), ("C15-R4", r4_nothing_dropped), ("C15-R5", r5_set_env), ("C15-R6", r6_configured_text_outlives_configuration)]
+def r3c_totals_compared_after_accumulation(ctx):
+    """A cap on a *total* (argument bytes, environment bytes) is compared when the total is complete: every path from an
+    addition to the accepting return passes a comparison of that total with its cap afterwards.  A comparison that only sits
+    before the addition (a fail-fast test at the top of the loop body) never sees the last summand."""
+    v = ctx.need("process::ProcessCommand::validate")
+    ctx.touch(v)
+    adds = [c for c in v.calls() if (c.callee or "").split("::")[-1] in ("checked_add", "saturating_add", "wrapping_add")]
+    adds += []
+    n = 0
+    ok_exits = set()
+    for b in sorted(v.live):
+        for st in v.blocks[b]["s"]:
+            if st["lhs"]["l"] == 0 and not st["lhs"]["p"] and st["rv"]["k"] == "agg" and st["rv"].get("variant") == "Ok":
+                ok_exits.add(b)
+    for c in adds:
+        total = sh(ne(v.expr(c.args[0], 3)))
+        cmps = []
+        for S in sorted(v.live):
+            if v.blocks[S]["t"]["k"] != "switch":
+                continue
+            si = v.switch_info(S)
+            if si["kind"] == "bin" and si["op"] in ("Gt", "Ge", "Lt", "Le"):
+                a, b2 = sh(ne(v.expr(si["a"], 3))), sh(ne(v.expr(si["b"], 3)))
+                if total in (a, b2) and ("caps." in a + b2):
+                    cmps.append(S)
+        n += 1
+        if not cmps:
+            ctx.bad("total|%s|uncompared" % total, v.where(c.block), "the accumulated `%s` is never compared with a cap" % total)
+            continue
+        r = v.reach_from_succ(c.block, removed_nodes=cmps)
+        if r & ok_exits:
+            ctx.bad("total|%s|compared-before-complete" % total, v.where(cmps[0]), "after the last addition to `%s` validate can accept the command without comparing the total with its cap again (the comparison sits before the addition): a command that exceeds the limit only through its last summand is spawned" % total)
+        else:
+            ctx.ok("total|%s|compared-after-accumulation" % total, v.where(cmps[0]), "every accepting path after an addition passes the comparison")
+    ctx.floor("accumulated totals in validate", n, 2)
+
+
+def r7_index_paths_walk_the_same_way(ctx):
+    """`grid[i][j].arg(x)` configures the command at [i][j]: the three routines that walk an index path to a mutable place
+    (get_mutable_array, get_mutable_process_command, assign_index) consume the path flatten_index_target returns in the same
+    direction."""
+    dirs = {}
+    for name in ("get_mutable_array", "get_mutable_process_command", "assign_index"):
+        f = ctx.need("runtime::Runtime::" + name)
+        ctx.touch(f)
+        its = []
+        for c in f.calls():
+            if (c.callee or "").split("::")[-1] == "next":
+                t = sh(ne(f.deep(c.args[0])))
+                if "flatten_index_target(" in t:
+                    its.append(("rev" if re.search(r"\brev\(", t) else "fwd", c.block, t[:50]))
+        dirs[name] = its
+    ref = [d for d, b, t in dirs.get("get_mutable_array", [])]
+    for name, its in dirs.items():
+        f = ctx.need("runtime::Runtime::" + name)
+        got = [d for d, b, t in its]
+        if not its:
+            ctx.bad("index-path|%s|no-walk" % name, f.where(), "%s no longer walks the index path returned by flatten_index_target" % name)
+        elif got == ref[:len(got)] or (name == "assign_index" and set(got) == set(ref)):
+            ctx.ok("index-path|%s" % name, f.where(its[0][1]), "walks the path %s" % "/".join(got))
+        else:
+            ctx.bad("index-path|%s|direction|%s" % (name, "/".join(got)), f.where(its[0][1]), "%s walks the index path %s while get_mutable_array walks it %s: with two or more subscripts the operation lands on the element at the reversed path (`grid[0][1].arg(x)` configures grid[1][0])" % (name, "/".join(got), "/".join(ref)))
+
+
+RULES = [("C15-R1", r1_gate), ("C15-R2", r2_no_shell), ("C15-R3", r3_caps), ("C15-R3b", r3b_refusal_before_spawn), ("C15-R4", r4_nothing_dropped), ("C15-R5", r5_set_env), ("C15-R6", r6_configured_text_outlives_configuration), ("C15-R3c", r3c_totals_compared_after_accumulation), ("C15-R7", r7_index_paths_walk_the_same_way)]
 
 EXPLANATION = (
     "R1: the platform process runner is invoked only from the `run` arm of the command dispatcher, edge-dominated by "
